@@ -182,6 +182,8 @@ pub struct Spec {
     pub inventory: Option<(Vec<&'static str>, Vec<&'static str>)>,
     /// Coq type of the value of a (non-step) kernel, where it cannot be inferred (a bare `None` / `Err(..)`)
     pub annot: Option<&'static str>,
+    /// translate only from the first top-level statement whose token string (or `let` initialiser) starts with this
+    pub from: Option<&'static str>,
 }
 
 impl Spec {
@@ -264,7 +266,7 @@ fn base(module: &'static str, group: &'static str, file: &'static str, name: &'s
         recv_groups: vec![], id_methods: vec![], skip_as: vec![], rewrite: vec![], ctors: vec![], argsel: vec![],
         skip_loops: false, ret_wrap: None, note: "",
         type_params: vec![], recv_arg: vec![], break_value: false, loop_cond: false, effects_ret: false, with_locals: vec![],
-        ptr_checked: false, closure_params: vec![], after_loop: None, skip_lets: vec![], iter_fold: None, via: None, positions: vec![], attr_filter: None, inventory: None, annot: None,
+        ptr_checked: false, closure_params: vec![], after_loop: None, skip_lets: vec![], iter_fold: None, via: None, positions: vec![], attr_filter: None, inventory: None, annot: None, from: None,
     }
 }
 
@@ -557,6 +559,16 @@ pub fn table() -> Vec<Spec> {
             s.effects = vec!["ref_at", f];
             s.recv_arg = vec![f];
             s.argsel = vec![("store", vec![])];
+            t.push(s);
+        }
+        // {VolatileSlice, VolatileArrayRef}::copy_to_volatile_slice: count = min(own byte length, slice.size), one copy, mark (0, count)
+        for (name, ty) in [("vs_copy_to_volatile_slice", "VolatileSlice"), ("va_copy_to_volatile_slice", "VolatileArrayRef")] {
+            let mut s = vk(name, "copy_to_volatile_slice", Loc::Impl { ty, tr: None, f: "copy_to_volatile_slice" });
+            s.canon_params = vec!["slice"];
+            s.drop_params = vec!["slice"];
+            s.extra = vec![ex("self . size", "size", Ty::Int(64)), ex("self . len ()", "nelem", Ty::Int(64)), ex("self . element_size ()", "esz", Ty::Int(64)),
+                           ex("slice . size", "slice_size", Ty::Int(64)), ex("self . addr", "addr", Ty::Ptr), ex("slice . addr", "slice_addr", Ty::Ptr)];
+            s.effects = vec!["copy", "mark_dirty"];
             t.push(s);
         }
         let mut s = vk("va_from_slice", "from", Loc::Impl { ty: "VolatileArrayRef", tr: Some("From"), f: "from" });
@@ -1218,6 +1230,19 @@ pub fn table() -> Vec<Spec> {
             t.push(s);
         }
     }
+    {
+        // w1c: insert_region re-validates the WHOLE vector: push, sort by start address, from_arc_regions
+        let mut s = base("Mmap", "GuestMemoryMmap", "src/mmap/mod.rs", "insert_region", "insert_region", Loc::Impl { ty: "GuestMemoryMmap", tr: None, f: "insert_region" });
+        s.canon_params = vec!["region"];
+        s.param_tys = vec![("region", Ty::Abs("RGN"))];
+        s.type_params = vec!["RGN", "R"];
+        s.skip = vec!["self . regions . clone ()"];
+        s.effects = vec!["push", "sort_by_key"];
+        s.effects_ret = true;
+        s.argsel = vec![("sort_by_key", vec![]), ("from_arc_regions", vec![])];
+        s.fns = vec![ofn("from_arc_regions", "from_arc_regions", "R", Ty::Unknown)];
+        t.push(s);
+    }
     // ------------------------------------------------------------------ src/mmap/unix.rs
     {
         let ufile = "src/mmap/unix.rs";
@@ -1249,6 +1274,17 @@ pub fn table() -> Vec<Spec> {
         s.extra = vec![ex("self . addr", "addr", Ty::Ptr)];
         s.fns = vec![ofn("slice_at", "slice_at", "N -> BM", Ty::Abs("BM")), ofn("compute_end_offset", "compute_end_offset", "N -> N -> rres E", Ty::Res(Box::new(Ty::Abs("E"))))];
         s.ctors = vec![("with_bitmap", vec![0, 2, 3])];
+        t.push(s);
+    }
+    {
+        // w1c: MmapRegionBuilder::build: the mmap(2) call gets exactly self.size, self.prot, self.flags
+        let mut s = base("MmapUnix", "MmapUnix", "src/mmap/unix.rs", "build_mmap_args", "build", Loc::Impl { ty: "MmapRegionBuilder", tr: None, f: "build" });
+        s.type_params = vec!["R"];
+        s.from = Some("unsafe { libc :: mmap");
+        s.locals = Some(vec!["addr"]);
+        s.extra = vec![ex("self . size", "size", Ty::Int(64)), ex("self . prot", "prot", Ty::Int(32)), ex("self . flags", "flags", Ty::Int(32))];
+        s.fns = vec![ofn("mmap", "mmap_call", "N -> N -> N -> R", Ty::Unknown)];
+        s.argsel = vec![("mmap", vec![1, 2, 3])];
         t.push(s);
     }
     // ------------------------------------------------------------------ src/mmap/xen.rs
@@ -1316,6 +1352,33 @@ pub fn table() -> Vec<Spec> {
         s.fns = vec![ofn("slice_at", "slice_at", "N -> BM", Ty::Abs("BM")), ofn("compute_end_offset", "compute_end_offset", "N -> N -> rres E", Ty::Res(Box::new(Ty::Abs("E"))))];
         s.ctors = vec![("with_bitmap", vec![0, 2, 3])];
         s.positions = vec![("let#1", "mmap_info")];
+        t.push(s);
+    }
+    {
+        // w1c: MmapRange::new_unix flags (file: NORESERVE|SHARED, anonymous: ANONYMOUS|PRIVATE), GntDevMapGrantRef::new loop body
+        // (ref i: the same domid, reference base + i), MmapRegion::from_range: size / file offset / hugetlbfs hint passed on
+        let mut s = base("Xen", "Xen", xfile, "new_unix_flags", "new_unix", Loc::Impl { ty: "MmapRange", tr: None, f: "new_unix" });
+        s.canon_params = vec!["size", "file_offset", "addr"];
+        s.param_tys = vec![("file_offset", opt(Ty::Abs("F")))];
+        s.type_params = vec!["F"];
+        s.consts = vec![("libc :: MAP_NORESERVE".to_string(), "16384".to_string(), Ty::Int(32)), ("libc :: MAP_SHARED".to_string(), "1".to_string(), Ty::Int(32)),
+                        ("libc :: MAP_ANONYMOUS".to_string(), "32".to_string(), Ty::Int(32)), ("libc :: MAP_PRIVATE".to_string(), "2".to_string(), Ty::Int(32))];
+        s.fields = vec!["flags", "mmap_data", "size", "addr"];
+        t.push(s);
+        let mut s = base("Xen", "Xen", xfile, "grant_refs_body", "new", Loc::Impl { ty: "GntDevMapGrantRef", tr: None, f: "new" });
+        s.loop_idx = Some(0);
+        s.vars = vec![("i", Ty::Int(64)), ("r", Ty::Unit)];
+        s.state = vec![ex("r . domid", "r_domid", Ty::Int(32)), ex("r . reference", "r_reference", Ty::Int(32))];
+        s.step = Some(("N * N", "unit"));
+        t.push(s);
+        let mut s = base("Xen", "Xen", xfile, "from_range_fields", "from_range", Loc::Impl { ty: "MmapRegion", tr: None, f: "from_range" });
+        s.canon_params = vec!["range"];
+        s.drop_params = vec!["range"];
+        s.type_params = vec!["FO"];
+        s.from = Some("Ok (MmapRegion");
+        s.extra = vec![ext("range . hugetlbfs", "huge", "option bool", opt(Ty::Bool)), ex("range . size", "size", Ty::Int(64)), ext("range . file_offset", "fo", "FO", Ty::Abs("FO"))];
+        s.fields = vec!["hugetlbfs", "size", "file_offset"];
+        s.annot = Some("rres (FO * option bool * N)");
         t.push(s);
     }
     // ------------------------------------------------------------------ src/endian.rs
